@@ -140,7 +140,8 @@ Section Inv.
     (forall i, i < length ns ->
        n_state (nth i ns' dnode) = n_state (nth i ns dnode) /\
        (forall t, n_tok (nth i ns dnode) = Some t -> n_tok (nth i ns' dnode) = Some t) /\
-       n_frontier (nth i ns' dnode) = n_frontier (nth i ns dnode)) /\
+       n_frontier (nth i ns' dnode) = n_frontier (nth i ns dnode) /\
+       (forall x, In x (n_parents (nth i ns dnode)) -> In x (n_parents (nth i ns' dnode)))) /\
     (forall q, q < length ps ->
        p_head (nth q ps' dpar) = p_head (nth q ps dpar) /\
        p_root (nth q ps' dpar) = p_root (nth q ps dpar)).
@@ -152,8 +153,9 @@ Section Inv.
     ext ns1 ps1 ns2 ps2 -> ext ns2 ps2 ns3 ps3 -> ext ns1 ps1 ns3 ps3.
   Proof.
     intros (A1 & A2 & A3 & A4) (B1 & B2 & B3 & B4). split; [lia|]. split; [lia|]. split.
-    - intros i Hi. destruct (A3 i Hi) as (E1 & T1 & F1). destruct (B3 i ltac:(lia)) as (E2 & T2 & F2).
-      split; [congruence|]. split; [intros t Ht; apply T2, T1, Ht|congruence].
+    - intros i Hi. destruct (A3 i Hi) as (E1 & T1 & F1 & G1). destruct (B3 i ltac:(lia)) as (E2 & T2 & F2 & G2).
+      split; [congruence|]. split; [intros t Ht; apply T2, T1, Ht|]. split; [congruence|].
+      intros x Hx. apply G2, G1, Hx.
     - intros q Hq. destruct (A4 q Hq) as [E1 R1]. destruct (B4 q ltac:(lia)) as [E2 R2].
       split; congruence.
   Qed.
@@ -223,11 +225,12 @@ Section Inv.
     n_state (f (nth i ns dnode)) = n_state (nth i ns dnode) ->
     (forall t, n_tok (nth i ns dnode) = Some t -> n_tok (f (nth i ns dnode)) = Some t) ->
     n_frontier (f (nth i ns dnode)) = n_frontier (nth i ns dnode) ->
+    (forall x, In x (n_parents (nth i ns dnode)) -> In x (n_parents (f (nth i ns dnode)))) ->
     ext ns ps (list_upd i f ns) ps.
   Proof.
-    intros Hs Ht Hf. split; [rewrite list_upd_length; lia|]. split; [lia|]. split; [|auto].
+    intros Hs Ht Hf Hg. split; [rewrite list_upd_length; lia|]. split; [lia|]. split; [|auto].
     intros j Hj. destruct (Nat.eq_dec i j) as [->|Hne].
-    - rewrite nth_list_upd_eq by exact Hj. split; [apply Hs|]. split; [apply Ht|apply Hf].
+    - rewrite nth_list_upd_eq by exact Hj. split; [apply Hs|]. split; [apply Ht|]. split; [apply Hf|apply Hg].
     - rewrite nth_list_upd_neq by exact Hne. auto.
   Qed.
 
@@ -235,11 +238,12 @@ Section Inv.
     n_state (f (nth i ns dnode)) = n_state (nth i ns dnode) ->
     (forall t, n_tok (nth i ns dnode) = Some t -> n_tok (f (nth i ns dnode)) = Some t) ->
     n_frontier (f (nth i ns dnode)) = n_frontier (nth i ns dnode) ->
+    (forall x, In x (n_parents (nth i ns dnode)) -> In x (n_parents (f (nth i ns dnode)))) ->
     heap_ok ns ps ->
     (i < length ns -> node_ok (list_upd i f ns) ps (f (nth i ns dnode))) ->
     heap_ok (list_upd i f ns) ps.
   Proof.
-    intros Hs Ht Hf [Hl Hn] Hnew. pose proof (ext_upd_node ns ps i f Hs Ht Hf) as He. split.
+    intros Hs Ht Hf Hg [Hl Hn] Hnew. pose proof (ext_upd_node ns ps i f Hs Ht Hf Hg) as He. split.
     - intros q Hq. eapply link_ok_ext; [exact He|apply Hl; exact Hq].
     - intros j Hj. rewrite list_upd_length in Hj. destruct (Nat.eq_dec i j) as [->|Hne].
       + rewrite nth_list_upd_eq by exact Hj. apply Hnew. exact Hj.
@@ -349,9 +353,11 @@ Section Inv.
       pose proof (heap_app_par ns ps P Hheap Hlk) as Hheap1.
       assert (Hs : forall n, n_state (n_add_parent key (length ps) n) = n_state n) by reflexivity.
       assert (Ht : forall n t, n_tok n = Some t -> n_tok (n_add_parent key (length ps) n) = Some t) by auto.
+      assert (Hg : forall n x, In x (n_parents n) -> In x (n_parents (n_add_parent key (length ps) n))).
+      { intros n x Hx. cbn [n_add_parent n_parents]. apply in_or_app. left. exact Hx. }
       split.
-      + apply heap_upd_node; [apply Hs|apply Ht|reflexivity|exact Hheap1|]. intros _.
-        pose proof (ext_upd_node ns (ps ++ [P]) hd _ (Hs _) (Ht _) eq_refl) as He.
+      + apply heap_upd_node; [apply Hs|apply Ht|reflexivity|apply Hg|exact Hheap1|]. intros _.
+        pose proof (ext_upd_node ns (ps ++ [P]) hd _ (Hs _) (Ht _) eq_refl (Hg _)) as He.
         intros k q Hin. cbn [n_add_parent n_parents n_state] in Hin |- *. apply in_app_or in Hin.
         destruct Hin as [Hin|[Hin|[]]].
         * destruct Hheap1 as [_ Hn1]. eapply node_ok_ext; [exact He|apply Hn1; exact Hhd|exact Hin].
@@ -361,7 +367,7 @@ Section Inv.
           -- unfold nstate. rewrite nth_list_upd_eq by exact Hhd. reflexivity.
           -- split; [exact Hroot|]. rewrite (ext_nstate _ _ _ _ _ He Hroot). reflexivity.
       + split.
-        * eapply ext_trans; [apply ext_app_par|apply ext_upd_node; [apply Hs|apply Ht|reflexivity]].
+        * eapply ext_trans; [apply ext_app_par|apply ext_upd_node; [apply Hs|apply Ht|reflexivity|apply Hg]].
         * split; [rewrite app_length; cbn; lia|]. split; [reflexivity|apply list_upd_length].
   Qed.
 
@@ -608,9 +614,9 @@ Section Inv.
       assert (Ht : forall t, n_tok (nth h' ns dnode) = Some t ->
                              n_tok (n_set_tok (Some tok) (nth h' ns dnode)) = Some t).
       { intros t E. rewrite Et in E. discriminate. }
-      pose proof (ext_upd_node ns ps h' _ Hs Ht eq_refl) as He.
+      pose proof (ext_upd_node ns ps h' _ Hs Ht eq_refl (fun x H => H)) as He.
       split.
-      + apply heap_upd_node; [exact Hs|exact Ht|reflexivity|exact Hheap|]. intros _.
+      + apply heap_upd_node; [exact Hs|exact Ht|reflexivity|exact (fun x H => H)|exact Hheap|]. intros _.
         apply (node_ok_same _ _ (nth h' ns dnode)); [reflexivity|reflexivity|].
         eapply node_ok_ext; [exact He|]. destruct Hheap as [_ Hn]. apply Hn. exact Hh.
       + split; [exact He|]. split; [rewrite list_upd_length; exact Hh|]. split; [|reflexivity].
@@ -678,9 +684,9 @@ Section Inv.
         assert (Hs1 : n_state (n_set_pos p (nth h ns dnode)) = n_state (nth h ns dnode)) by reflexivity.
         assert (Ht1 : forall t, n_tok (nth h ns dnode) = Some t ->
                                 n_tok (n_set_pos p (nth h ns dnode)) = Some t) by auto.
-        pose proof (ext_upd_node ns ps h _ Hs1 Ht1 eq_refl) as He1.
+        pose proof (ext_upd_node ns ps h _ Hs1 Ht1 eq_refl (fun x H => H)) as He1.
         assert (Hheap1 : heap_ok (s_nodes st1) (s_pars st1)).
-        { cbn [st1 upd_node set_nodes s_nodes s_pars]. apply heap_upd_node; [exact Hs1|exact Ht1|reflexivity|exact Hheap|].
+        { cbn [st1 upd_node set_nodes s_nodes s_pars]. apply heap_upd_node; [exact Hs1|exact Ht1|reflexivity|exact (fun x H => H)|exact Hheap|].
           intros _. apply (node_ok_same _ _ (nth h ns dnode)); [reflexivity|reflexivity|].
           eapply node_ok_ext; [exact He1|]. destruct Hheap as [_ Hn]. apply Hn. exact Hh. }
         assert (Hh1 : h < length (s_nodes st1)).
